@@ -3,7 +3,7 @@
 python3 tools/selftest_C17.py [name-substring ...]
 Builds the fixed tree in a scratch git worktree of /repo (HEAD + proposed_fixes/C17.diff), copies it per edit,
 runs ./check C17 with VERIF_REPO pointing at the copy and prints exit code + verdict lines.
-Expected: B* exit 1 (VIOLATION), U* exit 2 (UNDECIDED: call-site shape), H* exit 0.
+Expected: B* exit 1 (VIOLATION), H* exit 0.
 """
 import os, shutil, subprocess, sys
 ROOT = os.path.dirname(os.path.dirname(os.path.abspath(__file__)))
@@ -12,6 +12,7 @@ WORK = "/tmp/c17_selftest"
 H = "sharepoint2text/parsing/extractors/html_extractor.py"
 E = "sharepoint2text/parsing/extractors/epub_extractor.py"
 M = "sharepoint2text/parsing/extractors/mail/msg_email_extractor.py"
+MH = "sharepoint2text/parsing/extractors/mhtml_extractor.py"
 MUTS = {
  "B1_html_end_counts_every_tag": (H, [("""        if self.skip_depth > 0:
             if tag == self._skip_tag:
@@ -75,12 +76,8 @@ MUTS = {
                     self._skip_tag = tag
                 self.skip_depth = 1
 """)]),
- "U1_msg_bypasses_builder": (M, [("""        parser = _HtmlTreeBuilder()
-        parser.feed(html_text)
-        root = parser.get_tree()
-""", """        parser = _HtmlTreeBuilder()
-        root = parser.get_tree()
-""")]),
+ "B16_msg_never_feeds_the_builder": (M, [("""        parser.feed(html_text)
+""", "")]),
  "H1_html_rename_local_reorder": (H, [("""        attrs_dict = {k: v for k, v in attrs if v is not None}
 
         node = {"tag": tag, "attrs": attrs_dict, "children": [], "text": "", "tail": ""}
@@ -131,11 +128,57 @@ MUTS = {
                     self._skip_tag = None
             return
 """)]),
+ # ---- round 2: tokeniser configuration, parser input, MSG routing
+ "B11_html_prestrips_comments_by_regex": (H, [("""            parser = _HtmlTreeBuilder()
+            parser.feed(html_text)
+""", """            parser = _HtmlTreeBuilder()
+            html_text = re.sub(r"<!--.*?-->", "", html_text)
+            parser.feed(html_text)
+""")]),
+ "B12_epub_drops_noscript_tags_textually": (E, [("""    parser = _XhtmlTextExtractor()
+    try:
+        parser.feed(content)
+""", """    parser = _XhtmlTextExtractor()
+    content = content.replace("<noscript>", "").replace("</noscript>", "")
+    try:
+        parser.feed(content)
+""")]),
+ "B13_msg_large_bodies_bypass_the_converter": (M, [("""        if _looks_like_html(raw_body):
+""", """        if _looks_like_html(raw_body) and len(raw_body) < 50000:
+""")]),
+ "B14_html_rawtext_mode_for_iframe": (H, [("""    def __init__(self):
+        super().__init__(convert_charrefs=True)
+        # Root node
+""", """    def __init__(self):
+        super().__init__(convert_charrefs=True)
+        self.CDATA_CONTENT_ELEMENTS = ("script", "style", "iframe")
+        # Root node
+""")]),
+ "B15_msg_hint_searched_in_first_line_only": (M, [("""    return _HTML_HINT_RE.search(text) is not None
+""", """    return _HTML_HINT_RE.search(text.split("\\n", 1)[0]) is not None
+""")]),
+ "H4_msg_sniffer_renamed_reordered": (M, [("""    lowered = text.lstrip().lower()
+    if lowered.startswith("<!doctype") or "<html" in lowered or "<body" in lowered:
+        return True
+    return _HTML_HINT_RE.search(text) is not None
+""", """    if _HTML_HINT_RE.search(text) is not None:
+        return True
+    low = text.lstrip().lower()
+    return "<body" in low or "<html" in low or low.startswith("<!doctype")
+""")]),
+ "H5_mhtml_rename_buffer": (MH, [("""        html_buffer = io.BytesIO(html_content)
+        for result in read_html(html_buffer, path=path):
+""", """        part = io.BytesIO(html_content)
+        for result in read_html(part, path=path):
+""")]),
 }
 
 subprocess.run(["git", "-C", "/repo", "worktree", "remove", "--force", BASE], capture_output=True)
 subprocess.run(["git", "-C", "/repo", "worktree", "add", "-q", "--detach", BASE, "HEAD"], check=True)
-subprocess.run(["git", "-C", BASE, "apply", os.path.join(ROOT, "proposed_fixes", "C17.diff")], check=True)
+for fix in ("C17.diff", "C17_2.diff"):      # proposed fixes that are not in /repo yet
+    d_ = os.path.join(ROOT, "proposed_fixes", fix)
+    if os.path.exists(d_) and subprocess.run(["git", "-C", BASE, "apply", "--check", d_], capture_output=True).returncode == 0:
+        subprocess.run(["git", "-C", BASE, "apply", d_], check=True)
 shutil.rmtree(WORK, ignore_errors=True)
 expect = {"B": 1, "U": 2, "H": 0}
 bad = 0
@@ -149,6 +192,8 @@ try:
         os.makedirs(d)
         shutil.copytree(f"{BASE}/sharepoint2text", f"{d}/sharepoint2text", ignore=shutil.ignore_patterns("__pycache__", "tests"))
         shutil.copy(f"{BASE}/README.md", d)
+        os.makedirs(f"{d}/sharepoint2text/tests/resources/mails", exist_ok=True)      # fixture of the MSG routing replay
+        shutil.copy(f"{BASE}/sharepoint2text/tests/resources/mails/basic_email.msg", f"{d}/sharepoint2text/tests/resources/mails/")
         p = f"{d}/{rel}"
         s = open(p).read()
         for a, b in edits:
